@@ -113,7 +113,7 @@ def shape_digest(graph, top):
 def box_size(bounds_list, cap=10**9):
     t = 1
     for lo, hi in bounds_list:
-        t *= (hi - lo + 1)
+        t *= (int(hi) - int(lo) + 1)        # python ints: the bounds may be narrow numpy integers
         if t > cap:
             return cap + 1
     return t
